@@ -364,3 +364,62 @@ func (w *World) GetItemRaw(name string, key []byte, withValue bool) {
 	}
 	w.logf("%s=%v", label, it != nil)
 }
+
+// VisitMutating runs one range visit through api whose first callback runs
+// mutate (the caller is the mutating goroutine); the delivered sequence must be
+// the range of pinned, the version current when the visit started.
+func (w *World) VisitMutating(name string, api int, target []byte, withValue bool, pinned *RColl, mutate func()) {
+	c := w.Colls[name]
+	label := fmt.Sprintf("%s(%s,%s,%v){mutate}", apiNames[api], name, vstr(target), withValue)
+	w.begin(label, false, false)
+	w.Trans++
+	desc := api == APIDescend || api == APIDescendEx || api == APIIterDescend
+	want := ExpectRange(pinned, target, desc)
+	var got [][]byte
+	first := true
+	cb := func(it *gkvlite.Item) bool {
+		got = append(got, append([]byte{}, it.Key...))
+		if first {
+			first = false
+			mutate()
+			w.begin(label, false, false)
+		}
+		return true
+	}
+	var err error
+	switch api {
+	case APIAscend:
+		err = c.VisitItemsAscend(target, withValue, cb)
+	case APIDescend:
+		err = c.VisitItemsDescend(target, withValue, cb)
+	case APIAscendEx:
+		err = c.VisitItemsAscendEx(target, withValue, func(it *gkvlite.Item, d uint64) bool { return cb(it) })
+	case APIDescendEx:
+		err = c.VisitItemsDescendEx(target, withValue, func(it *gkvlite.Item, d uint64) bool { return cb(it) })
+	default:
+		var it gkvlite.ItemIterator
+		if api == APIIterAscend {
+			it = c.IterateAscend(target, withValue)
+		} else {
+			it = c.IterateDescend(target, withValue)
+		}
+		for it.Next() {
+			cb(it.Result())
+		}
+		it.Close()
+		err = it.Err()
+		Quiesce()
+	}
+	if err != nil {
+		w.Fail("visit", "mutating-visitor-error", "%s returned error %v", label, err)
+		return
+	}
+	same := len(got) == len(want)
+	for i := 0; same && i < len(want); i++ {
+		same = bytes.Equal(got[i], want[i])
+	}
+	if !same {
+		w.Fail("visit", "mutating-visitor-sequence", "%s delivered %s, the version pinned at its start has %s", label, keyList(got), keyList(want))
+	}
+	w.logf("%s=%s", label, keyList(got))
+}
